@@ -138,7 +138,7 @@ impl Iterator for Lines {
     }
 
     fn size_hint(&self) -> (usize, Option<usize>) {
-        let remaining_bytes = self.input.len() - self.start;
+        let remaining_bytes = self.input.len().saturating_sub(self.start);
         (1.min(remaining_bytes), Some(remaining_bytes))
     }
 }
@@ -188,7 +188,7 @@ impl Iterator for Split {
     }
 
     fn size_hint(&self) -> (usize, Option<usize>) {
-        let remaining_bytes = self.input.len() - self.start;
+        let remaining_bytes = self.input.len().saturating_sub(self.start);
         (1.min(remaining_bytes), Some(remaining_bytes))
     }
 }
@@ -282,7 +282,7 @@ impl Iterator for SplitWith {
     }
 
     fn size_hint(&self) -> (usize, Option<usize>) {
-        let remaining_bytes = self.input.len() - self.start;
+        let remaining_bytes = self.input.len().saturating_sub(self.start);
         (1.min(remaining_bytes), Some(remaining_bytes))
     }
 }
